@@ -5,11 +5,13 @@
 -/
 import SoyVerif.Ops.Common
 import SoyVerif.Ops.RawText
+import SoyVerif.Ops.Lexer
 
 open SoyVerif SoyVerif.Ops
 
 def allOps : List Op :=
-  Ops.RawText.ops
+  Ops.RawText.ops ++
+  Ops.Lexer.ops
 
 def handle (op : String) (f : List String) : String :=
   match allOps.find? (·.1 == op) with
